@@ -161,7 +161,8 @@ def build_module(name, sources, config="ndebug", defines=(), incs=None, inline=(
     th = tree_hash()
     cdir = os.path.join(CACHE, th)
     os.makedirs(os.path.join(CACHE, "tmp"), exist_ok=True)
-    key = hashlib.sha256(repr((name, sorted(sources), config, sorted(defines)) + ((tuple(sorted(inline)),) if inline else ())).encode()).hexdigest()[:10]
+    extra = os.environ.get("VERIF_EXTRA_PASSES", "")       # robustness experiments only (tools/irstress.sh): semantics-preserving passes appended to the pipeline
+    key = hashlib.sha256(repr((name, sorted(sources), config, sorted(defines)) + ((tuple(sorted(inline)),) if inline else ()) + ((extra,) if extra else ())).encode()).hexdigest()[:10]
     mdir = os.path.join(cdir, "%s-%s-%s" % (name, config, key))
     facts = os.path.join(mdir, "all.json")
     if os.path.exists(facts):
@@ -184,7 +185,7 @@ def build_module(name, sources, config="ndebug", defines=(), incs=None, inline=(
             if rc != 0:
                 raise AnalysisBroken("llvm-link failed:\n" + se[-2000:])
             if inline: _force_inline(os.path.join(tmp, "all.ll"), sorted(inline))
-            rc, so, se = _run([OPT, "-passes=" + ("always-inline,function(mem2reg,sroa,jump-threading,instsimplify)" if inline else "function(mem2reg,sroa)"), "-S", os.path.join(tmp, "all.ll"), "-o", os.path.join(tmp, "all.m.ll")])
+            rc, so, se = _run([OPT, "-passes=" + ("always-inline,function(mem2reg,sroa,jump-threading,instsimplify)" if inline else "function(mem2reg,sroa)") + (("," + extra) if extra else ""), "-S", os.path.join(tmp, "all.ll"), "-o", os.path.join(tmp, "all.m.ll")])
             if rc != 0:
                 raise AnalysisBroken("opt failed:\n" + se[-2000:])
             with open(os.path.join(tmp, "all.json"), "w") as f:
